@@ -179,6 +179,20 @@ def check_C(S, p):
             ok = same(float(x), float(y), scale=abs(float(x)))
             if ok is False:
                 S.viol("C14:fold:cli:%s" % nm, "[C shape %r] `fold --fill zero | stat -s %s` gives %s, without folding %s" % (shape, nm, y, x), wit)
+        # scaling at the CLI, statistics mixed in ONE call (count-based and frequency-based together)
+        cfac = rng.choice([0.5, 3.0, 1000.0])
+        mixed = {1: "sum,pi,s,theta", 2: "f2,sum,fst,s,pi-xy", 3: "f3,sum,s"}[d]
+        x1 = cli.sfs(["stat", "-s", mixed, "--precision", "10"], stdin=inp)
+        x2 = cli.sfs(["stat", "-s", mixed, "--precision", "10"], stdin=GS.npy_bytes(shape, [v * cfac for v in data]))
+        S.count("C_runs", 2)
+        if x1.rc == 0 and x2.rc == 0:
+            for nm, u, v in zip(mixed.split(","), x1.out.decode().strip().split(","), x2.out.decode().strip().split(",")):
+                want = float(u) * (cfac if nm in SCALE_LIN else 1.0)
+                S.count("rel_scale")
+                if same(want, float(v), scale=abs(want) + 1e-6) is False:
+                    S.viol("C14:scale:cli:%s" % nm, "[C shape %r] `stat -s %s`: %s is %s on x and %s on %g*x (expected %.10g)" % (shape, mixed, nm, u, v, cfac, want), wit)
+        else:
+            S.viol("C14:cli-fail", "[C shape %r] stat -s %s failed: %r" % (shape, mixed, (x1.err + x2.err)[:200]), wit)
         if d == 3:
             f2 = {}
             for pair in ((0, 1), (0, 2), (1, 2)):
